@@ -213,7 +213,18 @@ func (m *Machine) indexAddr(it *Item, x *ssa.IndexAddr) Value {
 		m.obligePanic(it, c.Not(in), "index out of range")
 		return m.offsetPtr(it, bv, idx, esz, n)
 	case Text:
-		m.fail("IndexAddr into []byte (text abstraction)")
+		// one byte of an abstract text: an arbitrary byte value, constrained only by what the abstraction knows
+		// about line feeds (no line feed in the text: the byte is not one; nothing but line feeds: it is one)
+		in := c.And(m.sle(m.IntC(0), idx), m.slt(idx, bv.N))
+		m.obligePanic(it, c.Not(in), "index out of range")
+		o := m.NewObject(types.Typ[types.Uint8], m.siteOf(x))
+		by := m.Fresh("textbyte", m.intSort())
+		lf := m.IntC(10)
+		m.Assume(c.And(m.sle(m.IntC(0), by), m.sle(by, m.IntC(255))), "a byte of a text is in 0..255")
+		m.Assume(c.Implies(c.Eq(bv.NL, m.IntC(0)), c.Not(c.Eq(by, lf))), "a text without line feeds has no line-feed byte")
+		m.Assume(c.Implies(c.Eq(bv.NL, bv.N), c.Eq(by, lf)), "a text of line feeds only has only line-feed bytes")
+		m.heap.Set(o, 0, by)
+		return single(o, 0, c)
 	}
 	m.fail("IndexAddr on %T", m.val(f, x.X))
 	return nil
